@@ -176,6 +176,12 @@ func multiFile() *descriptorpb.FileDescriptorProto {
 	f := dyn.File("multi.proto", "un", nil, nil, []*descriptorpb.ServiceDescriptorProto{
 		dyn.Svc("MultiOK", ms("multiok", "/fx/multiok/m3")...),
 		dyn.Svc("MultiBad", ms("multibad", "/fx/multibad/{nope}")...),
+		// MultiBadS fails in its STREAMING method (registered after all unary ones): its two
+		// valid unary methods must not become visible either
+		dyn.Svc("MultiBadS",
+			dyn.MethodSpec{Name: "M1", In: ".un.All", Out: ".un.All", Rule: get("/fx/multibads/m1")},
+			dyn.MethodSpec{Name: "M2", In: ".un.All", Out: ".un.All", Rule: get("/fx/multibads/m2/{f_string}")},
+			dyn.MethodSpec{Name: "S1", In: ".un.All", Out: ".un.All", ClientStream: true, ServerStream: true, Rule: get("/fx/multibads/{nope}")}),
 	})
 	f.Dependency = append(f.Dependency, "un.proto")
 	return f
@@ -183,7 +189,7 @@ func multiFile() *descriptorpb.FileDescriptorProto {
 
 // MultiDesc returns the descriptor of MultiOK or MultiBad with tagged handlers.
 func MultiDesc(name string, cnt *atomic.Int64) *grpc.ServiceDesc {
-	return World.ServiceDesc("un."+name, Ping(name, cnt), nil)
+	return World.ServiceDesc("un."+name, Ping(name, cnt), chat)
 }
 
 // streamFile declares SvcS.Chat, a bidi echo served by B1 only. A message
